@@ -157,7 +157,7 @@ def nonneg_advance_rule(run):
             run.violation('R5', 'nonneg-advance', construct, fn.loc(c), 'guard %s is stale: an operand is reassigned at line %d before the advance' % (q.render(fn, g), st['l']))
         else:
             run.ok('R5', 'nonneg-advance', construct, fn.loc(c), 'dominating guard: ' + q.render(fn, g))
-    run.floor('R5', 2)
+    run.floor('R5', 1)
 
 
 
